@@ -351,7 +351,10 @@ C01Shape(sh) ==
          ~(\/ FactOK(sh.key, tc.inv, tc.p, tc.k, tc.card, tc.abs, tc.ratio)
            \/ (cfg.disableExact /\ tc.card = PLUS /\ \E c \in 2..MaxCard : FigOK(sh.key, tc.inv, tc.p, tc.k, c, tc.abs, tc.ratio)))
       THEN (IF NLSum(sh.key, tc.inv, tc.p, tc.k, tc.card, tc.abs, tc.ratio) THEN {"KF.C01.nlsum"}
-            ELSE IF TruncOK(sh.key, tc.inv, tc.p, tc.k, tc.card, tc.abs, tc.ratio) THEN {"KF.C13.truncation"} ELSE {"C01.line"}) ELSE {}) \cup
+            ELSE IF \/ TruncOK(sh.key, tc.inv, tc.p, tc.k, tc.card, tc.abs, tc.ratio)
+                    \* (the truncated figure of the exact cardinality a '+' line replaced under disable_exact_cardinality)
+                    \/ (cfg.disableExact /\ tc.card = PLUS /\ \E c \in 2..MaxCard : TruncOK(sh.key, tc.inv, tc.p, tc.k, c, tc.abs, tc.ratio))
+                 THEN {"KF.C13.truncation"} ELSE {"C01.line"}) ELSE {}) \cup
      (IF Over100(tc.abs, tc.ratio, CC(sh.key)) /\ ~(tc.k = "NONLITERAL" /\ BothKinds(sh.key, tc.inv, tc.p)) /\ tc.ks = {}
       THEN {"C01.over100"} ELSE {}) \cup
      (IF \E f \in tc.com : Over100(f[3], f[4], CC(sh.key)) /\ ~(f[1] = "NONLITERAL" /\ BothKinds(sh.key, tc.inv, tc.p)) THEN {"C01.over100"} ELSE {})
@@ -409,7 +412,8 @@ LocalOK(obs, n, key, T) ==
   /\ \A tc \in tcs : CardOK(Cardinality({t \in AllTriplesOf(n, tc.inv, tc.p) : MatchTc(t, tc, T)}), tc.card)
 RECURSIVE Gfp(_, _)
 Gfp(obs, T) == LET T2 == {x \in T : LocalOK(obs, x[1], x[2], T)} IN IF T2 = T THEN T ELSE Gfp(obs, T2)
-Typing(obs) == Gfp(obs, Nodes \X {s.key : s \in obs})
+\* (a node a shape map names is an instance even when the document says nothing about it: it is typed like any other node)
+Typing(obs) == Gfp(obs, (Nodes \cup UNION {Inst(k) : k \in Keys}) \X {s.key : s \in obs})
 \* strict domain of C03 (as the property states it)
 NLOthers(key, inv, p) == {Other(t, inv) : t \in {x \in G : P(x) = p /\ Focus(x, inv) \in Inst(key) /\ IsNodeT(Other(x, inv))}}
 AllProps == {P(t) : t \in G}
